@@ -367,58 +367,67 @@ def _recv(fd):
     return pickle.loads(_read_exact(fd, size))
 
 
-class Zygote:
-    """A pristine process that forks one child per request."""
+def _zygote_child(req_r, res_w, hang_s):
+    """Forked *before* the request arrives: read one request, answer it."""
+    import gc
+    import importlib
 
-    def __init__(self, name, hang_s=170):
-        req_r, req_w = os.pipe()
-        res_r, res_w = os.pipe()
+    try:
+        module, func, args = _recv(req_r)
+    except EOFError:
+        os._exit(3)
+    # canonical collector state: the allocation counters that decide *when*
+    # the cyclic GC runs must not depend on how long the zygote has lived
+    gc.enable()
+    gc.collect()
+    code = 1
+    try:
+        faulthandler.enable()
+        faulthandler.dump_traceback_later(hang_s, exit=True)
+        try:
+            result = ("ok", getattr(importlib.import_module(module), func)(*args))
+        except BaseException:  # pylint: disable=broad-except
+            result = ("err", traceback.format_exc())
+        _send(res_w, result)
+        code = 0
+    finally:
+        os._exit(code)
+
+
+def _zygote_loop(req_r, res_w, hang_s=170):
+    """Keep exactly one pre-forked child waiting for the next request.
+
+    The zygote itself never reads a request or builds an answer: each
+    iteration is fork + waitpid, so its heap is in the same steady state at
+    every fork and every child starts from the same memory image no matter
+    how many requests were served before."""
+    import gc
+
+    gc.collect()
+    gc.freeze()  # everything imported so far is permanent: children never scan it
+    gc.disable()
+    for _ in range(4):  # reach the steady state before the first real child
         pid = os.fork()
         if pid == 0:
-            os.close(req_w)
-            os.close(res_r)
-            try:
-                self._loop(req_r, res_w, hang_s)
-            finally:
-                os._exit(0)
-        os.close(req_r)
-        os.close(res_w)
-        self.name = name
-        self.req_w, self.res_r, self.pid = req_w, res_r, pid
+            os._exit(0)
+        os.waitpid(pid, 0)
+    while True:
+        pid = os.fork()
+        if pid == 0:
+            _zygote_child(req_r, res_w, hang_s)
+        _, status = os.waitpid(pid, 0)
+        code = os.waitstatus_to_exitcode(status)
+        if code == 3:
+            return
+        if code != 0:
+            _send(res_w, ("err", f"isolated child {pid} died (exit {code}) without answering"))
 
-    @staticmethod
-    def _loop(req_r, res_w, hang_s):
-        import importlib
 
-        while True:
-            try:
-                module, func, args = _recv(req_r)
-            except EOFError:
-                return
-            out_r, out_w = os.pipe()
-            pid = os.fork()
-            if pid == 0:
-                code = 1
-                try:
-                    os.close(out_r)
-                    faulthandler.enable()
-                    faulthandler.dump_traceback_later(hang_s, exit=True)
-                    try:
-                        result = ("ok", getattr(importlib.import_module(module), func)(*args))
-                    except BaseException:  # pylint: disable=broad-except
-                        result = ("err", traceback.format_exc())
-                    _send(out_w, result)
-                    code = 0
-                finally:
-                    os._exit(code)
-            os.close(out_w)
-            try:
-                response = _recv(out_r)
-            except (EOFError, struct.error):
-                response = ("err", f"isolated child {pid} died without answering")
-            os.close(out_r)
-            os.waitpid(pid, 0)
-            _send(res_w, response)
+class RemoteZygote:
+    """Client end of a zygote's pipes."""
+
+    def __init__(self, name, req_w, res_r):
+        self.name, self.req_w, self.res_r = name, req_w, res_r
 
     def call(self, module, func, *args):
         _send(self.req_w, (module, func, args))
@@ -438,6 +447,74 @@ class Zygote:
                 pass
 
 
+_SETARCH = None
+
+
+def _setarch():
+    global _SETARCH
+    if _SETARCH is None:
+        import subprocess
+
+        try:
+            arch = os.uname().machine
+            subprocess.run(["setarch", arch, "-R", "true"], check=True, capture_output=True, timeout=20)
+            _SETARCH = ["setarch", arch, "-R"]
+        except Exception:  # pylint: disable=broad-except
+            _SETARCH = []
+    return _SETARCH
+
+
+class Zygote(RemoteZygote):
+    """A *canonical* pristine process: a freshly exec'd interpreter with a
+    fixed environment, hash seed and (when permitted) address layout, which
+    imports the library and then forks one child per request.  Because every
+    context (pool worker, parent, replay in a new interpreter) forks its runs
+    from an identical memory image, a run is a function of (case, code) even
+    for code whose behaviour depends on object addresses or allocator reuse."""
+
+    def __init__(self, name, ref=None):
+        import subprocess
+
+        req_r, req_w = os.pipe()
+        res_r, res_w = os.pipe()
+        pass_fds = [req_r, res_w]
+        ref_arg = "-"
+        if ref is not None:
+            pass_fds += [ref.req_w, ref.res_r]
+            ref_arg = f"{ref.req_w:06d},{ref.res_r:06d}"
+        env = {
+            "PATH": os.environ.get("PATH", "/usr/bin:/bin"),
+            "HOME": os.environ.get("HOME", "/root"),
+            "LANG": "C.UTF-8",
+            "PYTHONHASHSEED": os.environ.get("STATHAM_VERIF_ZYG_HASHSEED", "0"),
+            "PYTHONDONTWRITEBYTECODE": "1",
+            "STATHAM_VERIF": "1",
+            "STATHAM_VERIF_CHILD": "1",
+            "VERIF_REPO": REPO,
+            "VERIF_OPCODES": os.environ.get("VERIF_OPCODES", "1"),
+        }
+        if os.environ.get("STATHAM_VERIF_ZYG_PAD"):
+            env["STATHAM_VERIF_ZYG_PAD"] = os.environ["STATHAM_VERIF_ZYG_PAD"]
+        argv = _setarch() + [
+            sys.executable,
+            os.path.join(VERIF, "sim", "zygote_main.py"),
+            f"{req_r:06d}",  # fixed width: identical allocation sizes everywhere
+            f"{res_w:06d}",
+            json.dumps(PRELOAD),
+            ref_arg,
+        ]
+        self.proc = subprocess.Popen(argv, env=env, pass_fds=pass_fds, close_fds=True)
+        os.close(req_r)
+        os.close(res_w)
+        super().__init__(name, req_w, res_r)
+        try:
+            ready = _recv(self.res_r)
+        except EOFError:
+            raise HarnessError(f"zygote {name} failed to start")
+        if ready != ("ready",):
+            raise HarnessError(f"zygote {name} failed to start: {ready}")
+
+
 ZYG_REF = None
 ZYG_RUN = None
 PRELOAD = []  # (module, func) run before the zygotes fork; must not use the library
@@ -450,15 +527,11 @@ def start_zygotes():
     if os.environ.get("VERIF_NO_ISOLATION") == "1":
         return
     import_statham()
-    import importlib
-
-    for module, func in PRELOAD:
-        getattr(importlib.import_module(module), func)()
     for old in (ZYG_REF, ZYG_RUN):
         if old is not None:
             old.close()  # inherited from the parent: not ours
     ZYG_REF = Zygote("ref")
-    ZYG_RUN = Zygote("run")  # forked second: its children can reach ZYG_REF
+    ZYG_RUN = Zygote("run", ref=ZYG_REF)  # its children can reach ZYG_REF
 
 
 def run_isolated(module, func, *args):
